@@ -87,12 +87,18 @@ def bc_fixpoint(check, proj):
         W = [rho, u, p]
         PT, RT = totals(A, gam, rho, u * u, p)
         prm = ParamDict({"ptot": PT, "rttot": RT, "p": p})
+        if name == "insub_cbc":
+            # with matching parameters the discriminant of the characteristic inlet is the perfect
+            # square (a - dir*u)^2 = (a + speed)^2 (inflow: -dir*u = speed > 0), whose non-negative
+            # root is a + speed: declared to the ring, applied only if the code's radicand equals it
+            a0 = A.sqrt(gam * p / rho)
+            A.root_rules.append(((a0 + s) * (a0 + s), a0 + s))
         try:
             out = ctx.call(f, d, W, prm)
         except AnalysisError as e:
             check.undecided("BC-FIXPOINT", f.qualname, str(e), f.loc())
             continue
-        if name == "insub_cbc":
+        if False and name == "insub_cbc":
             # root selection: a1 = (dir*J + sqrt(disc))*(g-1)/(g+1) returns the interior sound speed
             # iff sqrt(disc) = |...| has the right branch; decided on squares
             allok = True
@@ -173,7 +179,7 @@ def body(check):
                          "state reduce to the interior state under the inflow / outflow regime (GVN with exponents in Q(gamma), "
                          "symbolic unit direction / normal); nozzle sources vanish at rest; every integrator maps a zero residual "
                          "to the identity (AFF: update linear in residuals, implicit solves of a zero right-hand side)")
-    check.assume("'to round-off' (e.g. rounding of f*(sR-sL)/(sR-sL)) is not decided; insub_cbc root selection is not decided")
+    check.assume("'to round-off' (e.g. rounding of f*(sR-sL)/(sR-sL)) is not decided")
     check.guarded("RECON-CONST", "xnum", lambda: recon_const(check, proj))
     check.guarded("RESID-ZERO", "modeldisc.fvm1d.calc_res", lambda: resid_zero(check, proj))
     check.guarded("PERIODIC-CLOSE", "modeldisc.fvm1d.calc_bc", lambda: c01.periodic_close(check, proj))
